@@ -14,7 +14,10 @@ EXTENDS Naturals, Sequences, FiniteSets, TLC
 CONSTANTS NKeys,         \* argument tuples 1..NKeys: distinct cache keys although ==-equal (1, 1.0, True, x=1)
           NRecv,         \* instances 1..NRecv for the method forms (==-equal but distinct objects); 0 = plain function
           Forms,         \* subset of {"sync_fn", "sync_method", "async_fn", "async_method"}
-          Limits, Expirations, MaxT, MaxOps, Bug
+          Limits, Expirations, MaxT, MaxOps,
+          Outs,          \* outcomes the wrapped function may have: subset of {"val", "exc"}
+          Steps,         \* clock increments the environment may make in one Advance
+          Bug
 
 LRU == INSTANCE CacheLRU
 Keys == 1..NKeys
@@ -64,7 +67,7 @@ Call(r, k, o) ==
                /\ obs' = [inv |-> n, fresh |-> TRUE, out |-> o, at |-> now, drain |-> <<>>]
   /\ UNCHANGED <<conf, now, drained>>
 
-Advance == /\ now < MaxT /\ now' = now + 1 /\ ~drained /\ nops < MaxOps /\ nops' = nops + 1
+Advance(dt) == /\ now + dt <= MaxT /\ now' = now + dt /\ ~drained /\ nops < MaxOps /\ nops' = nops + 1
            /\ UNCHANGED <<conf, entries, ninv, invKey, invAt, invOut, uses, drained, obs>>
 
 (* epilogue from every state: call every (receiver, key) once more, in a fixed order; which
@@ -82,7 +85,7 @@ Drain == /\ ~drained /\ drained' = TRUE
          /\ obs' = [inv |-> 0, fresh |-> FALSE, out |-> "none", at |-> now, drain |-> DrainFrom(entries, ninv, 1, <<>>)]
          /\ UNCHANGED <<conf, now, entries, ninv, invKey, invAt, invOut, uses, nops>>
 
-Next == Advance \/ Drain \/ \E r \in Receivers \cup {0}, k \in Keys, o \in {"val", "exc"} : Call(r, k, o)
+Next == (\E dt \in Steps : Advance(dt)) \/ Drain \/ \E r \in Receivers \cup {0}, k \in Keys, o \in Outs : Call(r, k, o)
 Spec == Init /\ [][Next]_vars
 
 -----------------------------------------------------------------------------
